@@ -67,3 +67,14 @@ Proof. destruct ac; reflexivity. Qed.
 Theorem gen_compose3_is_model ac u v : gen_compose_flows (compose3g floorK) ac u v = compose3 floorK ac u v.
 Proof. destruct ac; reflexivity. Qed.
 End Gen.
+
+(* modules/flow.py ExpFlow: the module hands expv its own scale (negated by forward(inverse=True) and by inverse() / inv),
+   its steps (None = expv's default) and its align_corners flag *)
+Lemma gen_expflow_is_expv_call :
+  (forall k, (k <= 8)%nat -> gen_expflow_steps (Some k) = k) /\ gen_expflow_steps None = gen_expv_default_steps /\
+  gen_expflow_forward_sign false = 1%Z /\ gen_expflow_forward_sign true = (-1)%Z /\ gen_expflow_inverse_module_sign = (-1)%Z /\
+  (forall ac, gen_expflow_ac ac = ac).
+Proof.
+  split; [|repeat split; try reflexivity; intros []; reflexivity].
+  intros k H. do 9 (destruct k as [|k]; [reflexivity|]). lia.
+Qed.
